@@ -248,7 +248,7 @@ def _attach_internal():
                   ('_does_respect_Xs', m._does_respect_Xs),
                   ('_is_non_trivial_self_fulfilling', orig_sf),
                   ('_checkE_path_formula', m._checkE_path_formula),
-                  ('modelcheck', mcwrap.original('LTL'))])
+                  ('LTL.modelcheck', mcwrap.original('LTL'))])
 
 
 def attach():
